@@ -6,7 +6,7 @@ CONSTANTS
   HT = 1
   PreVote = FALSE
   CheckQuorum = FALSE
-  MaxTerm = 3
+  MaxTerm = 2
   MaxLen = 4
   MaxMsgs = 2
   MaxDup = 0
